@@ -1271,7 +1271,7 @@ func (a *Agent) TaskPrepare(Command int, Info any, Message *map[string]string, C
 			)
 
 			OffsetStr = strings.Replace(OffsetStr, "0x", "", -1)
-			Offset, err := strconv.ParseInt(OffsetStr, 16, 64)
+			Offset, err := strconv.ParseUint(OffsetStr, 16, 32)
 
 			if err != nil {
 				logger.Error("Failed to convert hex string to int: " + err.Error())
@@ -1283,7 +1283,7 @@ func (a *Agent) TaskPrepare(Command int, Info any, Message *map[string]string, C
 				ConfigId,
 				Library,
 				Function,
-				Offset,
+				uint32(Offset),
 			}
 
 			break
@@ -1348,7 +1348,7 @@ func (a *Agent) TaskPrepare(Command int, Info any, Message *map[string]string, C
 			)
 
 			OffsetStr = strings.Replace(OffsetStr, "0x", "", -1)
-			Offset, err := strconv.ParseInt(OffsetStr, 16, 64)
+			Offset, err := strconv.ParseUint(OffsetStr, 16, 32)
 
 			if err != nil {
 				logger.Error("Failed to convert hex string to int: " + err.Error())
@@ -1360,7 +1360,7 @@ func (a *Agent) TaskPrepare(Command int, Info any, Message *map[string]string, C
 				ConfigId,
 				Library,
 				Function,
-				Offset,
+				uint32(Offset),
 			}
 			break
 
